@@ -57,6 +57,14 @@ def gen(cs, ndates=(3, 8), nops=(1, 6), fi=False):
         k = rng.randint(1, max(1, nd // 2))
         prices[:k, t] = np.nan
         late[tickers[t]] = k
+    zero = {}
+    if rng.random() < 0.12 and nd >= 4:
+        t = rng.randrange(ntk)
+        if tickers[t] not in late:
+            k0 = rng.randint(1, nd - 2)
+            for k in range(k0, min(nd, k0 + rng.randint(1, 3))):
+                prices[k, t] = 0.0     # e.g. a swap marked at par: value 0 while the position stays open
+            zero[tickers[t]] = k0
     flat = rng.random() < 0.1
     if flat:  # some dates with unchanged prices (flow-neutrality observations)
         for i in range(1, nd):
@@ -150,7 +158,7 @@ def gen(cs, ndates=(3, 8), nops=(1, 6), fi=False):
                 day.append({"op": "read", "node": path, "prop": rng.choice(["value", "weight", "price", "prices", "values", "positions", "cash", "fees", "flows", "outlays"])})
         ops.append(day)
     return {"tickers": tickers, "prices": prices.tolist(), "start": "2020-01-01", "freq": "B", "tree": kids, "integer": integer, "comm": comm,
-            "bidoffer": None if bo is None else bo.tolist(), "capital": capital, "ops": ops, "late": late, "cs": cs}
+            "bidoffer": None if bo is None else bo.tolist(), "capital": capital, "ops": ops, "late": late, "zero": zero, "cs": cs}
 
 
 # ------------------------------------------------------------------ construction
@@ -285,8 +293,10 @@ class Driver(object):
             c = node.children.get(child)
             if c is None or isinstance(c, SecurityBase):
                 tick_price = self.data[child].iloc[self.di] if child in self.data.columns else None
-                if tick_price is None or not (tick_price == tick_price) or tick_price <= 0:
+                if tick_price is None or not (tick_price == tick_price) or tick_price < 0:
                     return "no price"
+                if tick_price == 0 and k not in ("transact", "sec_transact", "close"):
+                    return "no price"      # capital cannot be allocated at a zero price; quantity-based trades and closes are legal
             if k == "close" and c is None:
                 return "child absent"
         if k == "allocate" and child is None:
